@@ -230,3 +230,18 @@ Definition agree_C13F (v m out : val) : bool :=
     clean + NFKC + segmentation). [agree] demands in addition that this recomputed field IS the oracle
     field ([prep_agree]) and that the harness' per-text flags (kf3_free, class) are the model's ([kf_agree]). *)
 Definition run_C13FN (v : val) : val := run_C13F (rawify v).
+
+(** rayon's [sum::<f64>()] in [_mean_edit_distance] is the balanced split tree of [tree_sum] only while the
+    split budget lasts (<= 32 sequences with the 16 threads the harness pins); for longer lists the tree
+    depends on work stealing, so the returned bits are not a function of the input. Those cases are judged
+    by the rational model alone (relative 2^-40); every other f64 of every other case stays bit for bit. *)
+Definition long_mean (v : val) : bool :=
+  match v_z (v_nth 0 v) with
+  | 2 => Nat.ltb 32 (length (v_cll (v_nth 0 (v_nth 2 v))))
+  | _ => false
+  end.
+Definition check_C13FN (v out : val) : bool := check_C13_fast v (conv_out v out).
+Definition agree_C13FN (v m out : val) : bool :=
+  prep_agree v && kf_agree v
+  && (if long_mean v then true else val_eqb m out)
+  && agree_C13 v (run_C13_fast v) (conv_out v out).
